@@ -142,7 +142,23 @@ def run(ck):
         check_history(ck, "C16.R4", cname + ".apply", osite, mk, lambda it, c: call(it, c[1], "apply", c[0], c[2]), max_paths=40)
         check_history(ck, "C16.R4", cname + ".statistics_from_samples", osite, mk,
                       lambda it, c: it.ops.subscript(it, call(it, c[1], "statistics_from_samples", c[0], c[2]), VConst("mean"), None), max_paths=40)
-    ck.require_min("C16.R4", 6)
+    # an expression kept by the caller evaluates to the same thing after further expressions were built on top of it
+    from .history import check_after
+
+    for cname, build in (("a + b", lambda it, a, b: binop(it, "Add", a, b, None)), ("2*a", lambda it, a, b: binop(it, "Mult", VConst(2), a, None)), ("(a + b) - a", lambda it, a, b: binop(it, "Sub", binop(it, "Add", a, b, None), a, None))):
+        def mk2(it, build=build):
+            a, b, s, smp = _ctx(it, prog)
+            return (s, build(it, a, b), smp, a, b)
+
+        def pre(it, c):
+            binop(it, "Add", c[1], VConst(1.5), None)
+            binop(it, "Add", c[1], c[4], None)
+            binop(it, "Sub", VConst(2), c[1], None)
+            binop(it, "Mult", VConst(3), c[1], None)
+            unaryop(it, "USub", c[1], None)
+
+        check_after(ck, "C16.R4", "(%s).apply after larger expressions were built from it" % cname, osite, mk2, pre, lambda it, c: call(it, c[1], "apply", c[0], c[2]), max_paths=40)
+    ck.require_min("C16.R4", 9)
     # ------------------------------------------------------------------ R5 a leaf's result is not written to
     # A leaf may hand back a view of the batch (a user observable returning samples[:, 0] does); arithmetic on it must build
     # new values.  Decided on effects: no write reaches the batch's storage, and the leaf result keeps its value.
